@@ -11,10 +11,11 @@ import (
 )
 
 var (
-	c01Once    sync.Once
-	c01PoolAll []*poolToken
-	c01FullUni *c01Universe
-	c01PoolErr error
+	c01Once     sync.Once
+	c01PoolAll  []*poolToken
+	c01FullUni  *c01Universe
+	c01PoolErr  error
+	c01WarmOnce sync.Once
 )
 
 func c01Shared() ([]*poolToken, *c01Universe, error) {
@@ -33,10 +34,18 @@ func c01ReplayGeneric(raw json.RawMessage, w *sup.W) {
 	if err := json.Unmarshal(raw, &cs); err != nil {
 		return
 	}
-	_, full, err := c01Shared()
+	pool, full, err := c01Shared()
 	if err != nil {
 		return
 	}
+	// the verifier has seen the genuine tokens before it is shown the edited one (as in the
+	// search itself, which starts from the verified honest pool): whatever it remembers from
+	// them must not help a forgery
+	c01WarmOnce.Do(func() {
+		for _, t := range pool {
+			libAccepts(t.Bytes, rootPub(t.Root))
+		}
+	})
 	ser, err := hex.DecodeString(cs.Hex)
 	if err != nil {
 		return
